@@ -292,6 +292,20 @@ theorem cst_lexM_modulo : (c : Cst) → c.lexM.filter keep = (c.lex.map normLex)
   | .bin l c1 _ op c2 _ r => by
     simp only [Cst.lexM, Cst.lex, List.map_append, List.map_cons, List.filter_append, List.filter_cons, cst_lexM_modulo l,
       cst_lexM_modulo r, map_normLex_lexGC, normLex]
+  | .ite c1 _ c c2 _ c3 _ t c4 _ c5 _ e => by
+    simp only [Cst.lexM, Cst.lex, List.map_append, List.map_cons, List.filter_append, List.filter_cons, cst_lexM_modulo c,
+      cst_lexM_modulo t, cst_lexM_modulo e, map_normLex_lexGC, normLex]
+    simp [keep, isBindDelim, kwIf, kwThen, kwElse]
+  | .has e c1 _ c2 _ attrs => by
+    simp only [Cst.lexM, Cst.lex, List.map_append, List.map_cons, List.filter_append, List.filter_cons, cst_lexM_modulo e,
+      map_normLex_lexGC, normLex]
+    have hattr : ∀ (l : List Text), List.map normLex (attrLex l) = attrLex l := by
+      intro l; induction l with
+      | nil => rfl
+      | cons x r ih => simp [attrLex, normLex, ih]
+    cases attrs with
+    | nil => simp [attrLex0, keep, isBindDelim]
+    | cons x r => simp [attrLex0, normLex, hattr, keep, isBindDelim]
 theorem items_lexM_modulo : (its : Items) → its.lexM.filter keep = (its.lex.map normLex).filter keep
   | .nil => rfl
   | .cmt _ t rest => by
